@@ -32,6 +32,7 @@ type Op struct {
 	S  int    `json:"s"` // storage slot 1|2
 	R  int    `json:"r"` // withdraw record id / index
 	H  int    `json:"h"` // transaction hash id (0 = none)
+	B  int    `json:"b"` // 1 = blind: take no dump at this step (reads fill lazy caches); CopySwap and the Reload after it
 }
 
 const (
@@ -511,6 +512,38 @@ func (w *world) apply(op *Op, ev map[string]interface{}) {
 		ev["roots"] = fixture.Roots(a, b, c)
 		ev["live"] = w.getterDump(st)
 	case "Commit", "Reload":
+		if op.Op == "Reload" && op.B == 1 {
+			// blind: the copy made by the preceding blind CopySwap is committed without ever having been read; only the state
+			// reopened from its roots is dumped, and -- afterwards -- the original the copy was taken from
+			a, b, c, err := st.Commit(true)
+			if err != nil {
+				panic(err)
+			}
+			ev["blind"] = true
+			ev["roots"] = fixture.Roots(a, b, c)
+			w.commits = append(w.commits, [3]common.Hash{a, b, c})
+			if t := [3]common.Hash{a, b, c}; t != w.lastCommit {
+				w.lastCommit = t
+				if t != w.flushed {
+					w.unflushed = append(w.unflushed, t)
+				}
+			}
+			re, err := state.New(a, b, c, w.db)
+			if err != nil {
+				panic(err)
+			}
+			ev["re"] = w.getterDump(re)
+			ev["raw"] = w.enumDump(re)
+			ra, rb, rc := re.IntermediateRoot(true)
+			ev["reroots"] = fixture.Roots(ra, rb, rc)
+			if len(w.frozen) > 0 {
+				ev["orig"] = w.getterDump(w.frozen[len(w.frozen)-1])
+			}
+			if w.st, err = state.New(a, b, c, w.db); err != nil {
+				panic(err)
+			}
+			break
+		}
 		ev["pre"] = w.getterDump(st)
 		a, b, c, err := st.Commit(true)
 		if err != nil {
@@ -635,6 +668,12 @@ func (w *world) apply(op *Op, ev map[string]interface{}) {
 		w.frozen[len(w.frozen)-1].AddStakingRecord(w.addr(op.A), w.vals[op.V].Addr, txHash(op.H), val)
 		ev["main"] = w.getterDump(st)
 	case "Copy", "CopySwap":
+		if op.Op == "CopySwap" && op.B == 1 {
+			w.frozen = append(w.frozen, st)
+			w.st = st.Copy()
+			ev["blind"] = true
+			break
+		}
 		cp := st.Copy()
 		ev["orig"] = w.getterDump(st)
 		ev["copy"] = w.getterDump(cp)
@@ -659,7 +698,7 @@ func run(env *drive.Env) error {
 			nfz := len(w.frozen)
 			w.apply(op, ev)
 			// objects frozen BEFORE this operation must still show what they showed when they were frozen
-			if nfz > 0 && ev["panic"] == nil {
+			if nfz > 0 && ev["panic"] == nil && ev["blind"] == nil {
 				fz := []*dump{}
 				for _, f := range w.frozen[:nfz] {
 					fz = append(fz, w.getterDump(f))
